@@ -14,6 +14,8 @@ var universe18 = []string{
 	"d/x", "d/y", "d/s/z", "d/s/t/u", "ad/x", "d x/f g", "d-x/x",
 	// names that EXTEND a directory's name and sort after "<dir>/" ('_' 0x5f, 'd' 0x64 > '/' 0x2f)
 	"d_old", "dd/x",
+	// printf-like characters
+	"p%sq/x",
 }
 
 // realizable: no member is a proper directory prefix of another.
@@ -250,7 +252,30 @@ func checkC02(e *RunEnv) *CheckResult {
 			steps = append(steps, Run(append([]string{"add"}, topLevel(set)...)...).WithTags(t...), Run("commit", "-m", "m").WithTags(t...))
 			cases = append(cases, Case{Base: base, BaseName: "S0", BaseSeed: seedS0(), Steps: steps})
 		}
-		sweep = x.RunCases(cases)
+		// identity: every (local?, global?) x (name, e-mail) combination that is complete
+		var idc []Case
+		initOnly := x.BuildState([]Step{Run("init")})
+		for m := 1; m < 16; m++ {
+			var steps []Step
+			if m&1 != 0 {
+				steps = append(steps, Run("config", "user.name", "Local Name"))
+			}
+			if m&2 != 0 {
+				steps = append(steps, Run("config", "--global", "user.name", "Global Name"))
+			}
+			if m&4 != 0 {
+				steps = append(steps, Run("config", "user.email", "local@x.io"))
+			}
+			if m&8 != 0 {
+				steps = append(steps, Run("config", "--global", "user.email", "global@x.io"))
+			}
+			if m&3 == 0 || m&12 == 0 || initOnly == nil {
+				continue
+			}
+			steps = append(steps, Write("f", "f\n"), Run("add", "f"), Run("commit", "-m", "identity"))
+			idc = append(idc, Case{Base: initOnly, BaseName: "init", BaseSeed: []Step{Run("init")}, Steps: steps})
+		}
+		sweep = x.RunCases(cases) + x.RunCases(idc)
 	}, func(x *Explorer, cov map[string]interface{}) {
 		cov["name_set_sweep_cases"] = sweep
 		cov["name_set_universe"] = universe18
